@@ -212,6 +212,10 @@ fn sweep_payloads(thorough: bool) -> Vec<(String, Vec<u8>)> {
 	for k in 9..=if thorough { 22u32 } else { 16 } {
 		lens.extend([(1usize << k) - 1, 1 << k, (1 << k) + 1]);
 	}
+	// sizes on both sides of 4 MiB (plausible size limit), compressible only
+	for l in [(4usize << 20) - 1, (4 << 20) + 1, 5 << 20] {
+		v.push((format!("{l} bytes text"), (0..l).map(|i| b"tile data, "[i % 11]).collect()));
+	}
 	for l in lens {
 		v.push((format!("{l} bytes text"), (0..l).map(|i| b"tile data, "[i % 11]).collect()));
 		v.push((format!("{l} bytes noise"), tilesets::lcg_bytes(l as u64 + 1, l)));
@@ -219,7 +223,7 @@ fn sweep_payloads(thorough: bool) -> Vec<(String, Vec<u8>)> {
 	v
 }
 
-/// part C: chains of two conversions (the second starts from the first one's output container):
+/// part D: the `versatiles convert` command over 4 inputs (gzip bytes labelled uncompressed + --override-input-compression, gzip, brotli, uncompressed) x --compress {absent,uncompressed,gzip,brotli} x --force-recompress x {versatiles,pmtiles,tar}, outputs decoded independently; a 21845-tile source recompressed into pmtiles. part C: chains of two conversions (the second starts from the first one's output container):
 /// (source compression, target1, force1, target2, force2) through the versatiles format in memory
 fn part_c(ctx: &Arc<Ctx>) {
 	let work = ct::WorkDir::new("c04c");
@@ -408,15 +412,158 @@ fn part_b(ctx: &Arc<Ctx>) {
 	let _ = CompressionGoal::UseBestCompression;
 }
 
+/// part D: the command line. `versatiles convert` with --compress / --force-recompress / --override-input-compression
+/// over sources whose stored compression is declared (gzip, brotli) or only stated on the command line (gzip bytes in
+/// a container labelled uncompressed), into versatiles / pmtiles / tar; plus a 21845-tile source into pmtiles.
+fn part_d(ctx: &Arc<Ctx>) {
+	let bin = super::http::versatiles_bin();
+	if !bin.exists() {
+		eprintln!("MACHINERY: versatiles binary not found at {bin:?} (run ./setup.sh)");
+		std::process::exit(2);
+	}
+	let work = ct::WorkDir::new("c04d");
+	let rt = crate::memsource::runtime(2);
+	let ps: Vec<(&str, Vec<u8>)> = payloads().into_iter().filter(|p| p.1.len() <= 110 * 1024).collect();
+	let mut decoded = TileMap::new();
+	for (j, (_, p)) in ps.iter().enumerate() {
+		decoded.insert((3, j as u32, 1), p.clone());
+		decoded.insert((9, 255 + j as u32, 256), p.clone());
+	}
+	// (file, stored compression of the bytes, declared compression, extra arguments)
+	let mut inputs: Vec<(String, u8, Vec<String>)> = vec![];
+	for (name, stored, declared, extra) in [("lab", 1u8, 0u8, vec!["--override-input-compression".to_string(), "gzip".to_string()]), ("gz", 1, 1, vec![]), ("br", 2, 2, vec![]), ("raw", 0, 0, vec![])] {
+		let tiles: TileMap = decoded.iter().map(|(k, p)| (*k, codec::encode_with(stored, p))).collect();
+		let mut src = MemSource::new("m", tiles, TileFormat::PBF, ct::comp_from_id(declared));
+		match ct::write(&rt, Cont::Versatiles, &mut src, &work.0, &format!("in_{name}")) {
+			Ok(ct::Written::Bytes(b)) => std::fs::write(work.0.join(format!("in_{name}.versatiles")), b).unwrap(),
+			_ => {
+				eprintln!("MACHINERY: cannot write the CLI input container");
+				std::process::exit(2);
+			}
+		}
+		inputs.push((format!("in_{name}.versatiles"), stored, extra));
+	}
+	let mut runs = vec![];
+	for (ii, _) in inputs.iter().enumerate() {
+		for target in [None, Some(0u8), Some(1), Some(2)] {
+			for force in [false, true] {
+				for ext in ["versatiles", "pmtiles", "tar"] {
+					runs.push((ii, target, force, ext));
+				}
+			}
+		}
+	}
+	let (ctxr, rr, ir, dr, wpath): (&Ctx, _, _, _, _) = (ctx, &runs, &inputs, &decoded, work.0.clone());
+	par_for(runs.len(), |ri| {
+		let (ii, target, force, ext) = rr[ri];
+		let (input, stored, extra) = &ir[ii];
+		let out_comp = target.unwrap_or(*stored);
+		let mut args: Vec<String> = extra.clone();
+		if let Some(t) = target {
+			args.push("--compress".into());
+			args.push(["uncompressed", "gzip", "brotli"][t as usize].into());
+		}
+		if force {
+			args.push("--force-recompress".into());
+		}
+		let out = format!("out{ri}.{ext}");
+		let label = format!("versatiles convert {} {input} {out}", args.join(" "));
+		let case = json!({"kind": "cli", "args": args, "input": input, "output": ext});
+		ctxr.eval();
+		ctxr.transition(1);
+		let r = std::process::Command::new(&bin).current_dir(&wpath).arg("convert").args(&args).arg(input).arg(&out).output();
+		let Ok(r) = r else { return ctxr.violation("the convert command cannot be started", &label, case) };
+		if !r.status.success() {
+			return ctxr.violation("the convert command fails", &format!("{label}: {}", String::from_utf8_lossy(&r.stderr).lines().last().unwrap_or("")), case);
+		}
+		ctxr.trace(1);
+		let path = wpath.join(&out);
+		let (cont, w) = match ext {
+			"versatiles" => (Cont::Versatiles, ct::Written::Bytes(std::fs::read(&path).unwrap_or_default())),
+			"pmtiles" => (Cont::Pmtiles, ct::Written::Bytes(std::fs::read(&path).unwrap_or_default())),
+			_ => (Cont::Tar, ct::Written::Path(path.clone())),
+		};
+		match ct::independent_decode(cont, &w) {
+			Err(e) => ctxr.violation("CLI: converted file does not follow the layout", &format!("{label}: {e}"), case.clone()),
+			Ok(d) => {
+				if d.compression != Some(out_comp) {
+					ctxr.violation("CLI: output declares another compression than requested", &format!("{label}: file declares {:?}, expected {out_comp}", d.compression), case.clone());
+				}
+				let declared = d.compression.unwrap_or(out_comp);
+				for (k, p) in dr.iter() {
+					match d.tiles.get(k) {
+						None => ctxr.violation("CLI: converted output lacks a tile", &format!("{label}: {k:?}"), case.clone()),
+						Some(data) => {
+							if let Err(why) = really_encoded(declared, data, p) {
+								ctxr.violation("CLI: output tile, decoded with the declared compression, differs from the source payload", &format!("{label}: tile {k:?} ({} source bytes): {why}", p.len()), case.clone());
+								break;
+							}
+						}
+					}
+				}
+			}
+		}
+		let _ = std::fs::remove_file(&path);
+		ctxr.nontrivial(fnv_str(&format!("cli{ri}")));
+	});
+	ctx.outcome_n("CLI conversions (input x --compress x --force-recompress x target format)", runs.len() as u64);
+	// a source above the PMTiles leaf-directory threshold, recompressed into pmtiles
+	{
+		let mut full = TileMap::new();
+		for z in 0..=7u8 {
+			for x in 0..(1u32 << z) {
+				for y in 0..(1u32 << z) {
+					full.insert((z, x, y), format!("tile {z}/{x}/{y} {}", "pad ".repeat((x % 5) as usize)).into_bytes());
+				}
+			}
+		}
+		for (src_comp, target, force) in [(0u8, Some(1u8), false), (1, Some(2), true)] {
+			ctx.eval();
+			let tiles: TileMap = full.iter().map(|(k, p)| (*k, codec::encode_with(src_comp, p))).collect();
+			let src = MemSource::new("full7", tiles, TileFormat::PBF, ct::comp_from_id(src_comp)).with_fast_stream();
+			let mut cp = TilesConverterParameters::new_default();
+			cp.tile_compression = target.map(ct::comp_from_id);
+			cp.force_recompress = force;
+			let case = json!({"kind": "large", "src_comp": src_comp, "target": target, "force": force});
+			let label = format!("21845 tiles {:?} -> {:?} force={force} into pmtiles", ct::comp_from_id(src_comp), target.map(ct::comp_from_id));
+			let Ok(mut conv) = TilesConvertReader::new_from_reader(Box::new(src), cp) else { continue };
+			match ct::write(&rt, Cont::Pmtiles, &mut conv, &work.0, "large") {
+				Err(e) => ctx.violation(&format!("conversion fails: {}", super::c01::norm_msg(&e)), &format!("{label}: {e}"), case),
+				Ok(w) => match ct::independent_decode(Cont::Pmtiles, &w) {
+					Err(e) => ctx.violation("pmtiles: converted file does not follow the layout", &format!("{label}: {e}"), case),
+					Ok(d) => {
+						let declared = d.compression.unwrap_or(0);
+						let mut bad = 0u64;
+						let mut first = None;
+						for (k, p) in &full {
+							let ok = d.tiles.get(k).is_some_and(|data| really_encoded(declared, data, p).is_ok());
+							if !ok {
+								bad += 1;
+								first.get_or_insert(*k);
+							}
+						}
+						if bad > 0 {
+							ctx.violation("converted output lacks a tile", &format!("{label}: {bad} of {} tiles missing or with another payload, first {first:?}", full.len()), case);
+						}
+					}
+				},
+			}
+			ctx.nontrivial(fnv_str(&format!("large{src_comp}")));
+		}
+	}
+	drop(work);
+}
+
 pub fn run(ctx: Arc<Ctx>) {
 	ctx.rule(
 		"part A: every (source compression, target in {keep,none,gzip,brotli}, force flag, target format) = 120 conversions (MBTiles only for its legal pairs) over 8 payloads (three near-duplicates of one length that agree in head and tail, 1 B, 2 KiB compressible, 70 KiB incompressible, 100 KiB and 300 KiB highly compressible) through TilesConvertReader + the real writer on a multi-thread runtime, file-based targets into a path that already holds an earlier export with payloads of the same lengths; \
-		 output tiles decoded independently with the compression the output declares. part B: compress/decompress/recompress over 3x3 pairs and optimize_compression over 3 inputs x 8 allowed sets x 3 goals x (5 named payloads + every length 0..=40 quick / 0..=1200 thorough and 2^k-1,2^k,2^k+1 for k=9..16 quick / 9..22 thorough, each as text and as noise). part C: chains of two conversions (source compression x target1 x force1 x target2 x force2 x {versatiles, pmtiles}; every 4th in quick, all 384 in thorough), the second reading the first one's output. non-trivial = configurations that actually re-encode",
+		 output tiles decoded independently with the compression the output declares. part B: compress/decompress/recompress over 3x3 pairs and optimize_compression over 3 inputs x 8 allowed sets x 3 goals x (5 named payloads + every length 0..=40 quick / 0..=1200 thorough and 2^k-1,2^k,2^k+1 for k=9..16 quick / 9..22 thorough, each as text and as noise). part D: the `versatiles convert` command over 4 inputs (gzip bytes labelled uncompressed + --override-input-compression, gzip, brotli, uncompressed) x --compress {absent,uncompressed,gzip,brotli} x --force-recompress x {versatiles,pmtiles,tar}, outputs decoded independently; a 21845-tile source recompressed into pmtiles. part C: chains of two conversions (source compression x target1 x force1 x target2 x force2 x {versatiles, pmtiles}; every 4th in quick, all 384 in thorough), the second reading the first one's output. non-trivial = configurations that actually re-encode",
 	);
 	ctx.assume("flate2 and brotli crates are the trusted base used to build the source tiles and to decode the outputs");
 	part_a(&ctx);
 	part_b(&ctx);
 	part_c(&ctx);
+	part_d(&ctx);
 	ctx.exhaustive(true);
 }
 
